@@ -3,7 +3,7 @@ import os, sys, hashlib, subprocess, fcntl, shutil, glob, time
 
 VERIF = os.path.dirname(os.path.dirname(os.path.dirname(os.path.abspath(__file__))))
 REPO = os.environ.get('VSA_REPO', '/repo')
-CACHE = os.path.join(VERIF, '.cache')
+CACHE = os.environ.get('VSA_CACHE') or os.path.join(VERIF, '.cache')
 DRIVER_DIR = os.path.join(VERIF, 'vsa', 'driver')
 DRIVER = os.path.join(DRIVER_DIR, 'target', 'release', 'vsa-driver')
 FIXTURES = os.path.join(VERIF, 'vsa', 'fixtures')
